@@ -158,6 +158,7 @@ class E3Session(SessionBase):
 
     def __init__(self, world, props, known=None):
         super().__init__(world, props, known)
+        self.world = deepcopy(world)     # edit_mode changes documents; the replay file keeps the initial ones
         self.sim_doc = None
         self.ref_cache = {}
         self.plans = 0
@@ -416,6 +417,10 @@ class E3Session(SessionBase):
             total = total + my_interp_penalty(imp[k], table)
         with np.errstate(invalid='ignore'):
             metric = round(float(np.min(gsnr - total)), 2)
+        if math.isnan(metric):
+            # the line figures themselves are undefined (NaN out of the physics): no verdict can be derived
+            self.st.probes['c13_nan_figures_not_judged'] += 1
+            return None
         return {'gsnr_01nm': gsnr, 'total_penalty': total, 'metric': metric}
 
     def _judge_c13(self, data, out):
@@ -875,6 +880,31 @@ class E3Session(SessionBase):
                 'digest': jdigest([[it['rid'], it['route'], it['mode'], it['blocking'], it['N'], it['M']]
                                    for it in out['items']])}
 
+    def do_edit_mode(self, trx, mode, delta_osnr):
+        """the operator edits the required OSNR of one mode in the equipment library this process holds (object and
+        document alike); everything computed afterwards must follow the new value"""
+        if self.discarded:
+            return {'kind': 'discarded'}
+        hit = False
+        for t in self.world['eqpt']['Transceiver']:
+            if t['type_variety'] != trx:
+                continue
+            for m in t['mode']:
+                if m['format'] == mode:
+                    m['OSNR'] = m['OSNR'] + delta_osnr
+                    hit = True
+            for name in [t['type_variety']] + t.get('other_name', []):
+                if name in self.equipment['Transceiver']:
+                    for m in self.equipment['Transceiver'][name].mode:
+                        if m['format'] == mode:
+                            m['OSNR'] = m['OSNR'] + delta_osnr
+        if not hit:
+            return {'kind': 'nomode'}
+        self.snap_eq = strip_none(canon(self.equipment))
+        self.ref_cache = {}
+        self.st.faults['library_mode_edited'] += 1
+        return {'kind': 'edited'}
+
     def do_set_sim(self, doc):
         if self.discarded:
             return {'kind': 'discarded'}
@@ -1133,6 +1163,19 @@ def make_machine(prop, tier, cfg):
         def plan_again(self, which):
             self.sess.apply('plan', {'data': deepcopy(self.batches[which % len(self.batches)]), 'fault': None,
                                      'tag': 'again'})
+
+        @precondition(lambda self: self.swarm['sim'] and self.batches)
+        @rule(which=st.integers(0, 50), req=st.integers(0, 9), delta=st.sampled_from([3.0, -3.0, 6.0, 10.0, -6.0]))
+        def edit_mode(self, which, req, delta):
+            batch = self.batches[which % len(self.batches)]
+            tb = batch['path-request'][req % len(batch['path-request'])]['path-constraints']['te-bandwidth']
+            t = next((t for t in self.world['eqpt']['Transceiver']
+                      if tb['trx_type'] in [t['type_variety']] + t.get('other_name', [])), None)
+            if t is None:
+                return
+            mode = tb.get('trx_mode') or t['mode'][req % len(t['mode'])]['format']
+            self.sess.apply('edit_mode', {'trx': t['type_variety'], 'mode': mode, 'delta_osnr': delta})
+            self.sess.apply('plan', {'data': deepcopy(batch), 'fault': None, 'tag': 'after-edit'})
 
         @precondition(lambda self: self.swarm['sim'] and self.world.get('flavour') != 'raman')
         @rule(which=st.integers(0, len(SIM_DOCS) - 1))
